@@ -3,6 +3,7 @@ package props
 import (
 	"fmt"
 	"math"
+	"math/big"
 	"strconv"
 	"strings"
 	"unicode/utf8"
@@ -134,6 +135,24 @@ func (s *rapidSpeller) Float(kind string, v float64) string {
 			out = strconv.FormatFloat(v, 'g', -1, bits)
 		}
 	}
+	// independent of strconv: the literal, read as an exact rational with math/big and rounded to the
+	// nearest value of the width, must be the intended value; otherwise fall back to the shortest form
+	if v != 0 {
+		ok := false
+		if r, good := new(big.Rat).SetString(out); good {
+			if bits == 32 {
+				f, _ := r.Float32()
+				ok = f == float32(v)
+			} else {
+				f, _ := r.Float64()
+				ok = f == v
+			}
+		}
+		if !ok {
+			stats.exclude("speller-literal-did-not-denote-the-value(fallback to shortest form)")
+			out = strconv.FormatFloat(v, 'g', -1, bits)
+		}
+	}
 	if rapid.Bool().Draw(s.t, "expUpper") {
 		out = strings.Replace(out, "e", "E", 1)
 	}
@@ -256,9 +275,14 @@ type layoutSpec struct {
 }
 
 // respellSize inserts whitespace inside the brackets of a size token: after '[', around '..', before ']'.
-func respellSize(t *rapid.T, txt string) string {
+func respellSize(t *rapid.T, txt string, comments bool) string {
 	ws := func() string {
-		return rapid.SampledFrom([]string{"", "", " ", "\n", "\t", "\r\n", " \n "}).Draw(t, "innerWS")
+		w := rapid.SampledFrom([]string{"", "", " ", "\n", "\t", "\r\n", " \n "}).Draw(t, "innerWS")
+		if i := strings.Index(w, "\n"); i >= 0 && comments && rapid.IntRange(0, 3).Draw(t, "innerComment") == 3 {
+			// a comment at the end of a line that lies inside the brackets
+			w = w[:i] + " //" + genComment(t) + w[i:]
+		}
+		return w
 	}
 	if len(txt) < 2 || txt[0] != '[' || txt[len(txt)-1] != ']' {
 		return txt
@@ -348,7 +372,7 @@ func genLayout(t *rapid.T, toks []model.Tok, comments bool, opts ...bool) layout
 			if ls.Inner == nil {
 				ls.Inner = make([]string, len(toks))
 			}
-			ls.Inner[i] = respellSize(t, tk.Text)
+			ls.Inner[i] = respellSize(t, tk.Text, comments)
 		}
 	}
 	for i := 1; i <= len(toks); i++ {
